@@ -1,0 +1,23 @@
+//go:build verif
+
+package store
+
+import (
+	"github.com/ipld/go-storethehash/store/filecache"
+	"github.com/ipld/go-storethehash/store/freelist"
+)
+
+// Verification-only accessors (build tag verif).
+
+// VerifFreeList returns the store's freelist.
+func (s *Store) VerifFreeList() *freelist.FreeList { return s.freelist }
+
+// VerifFileCache returns the store's file cache.
+func (s *Store) VerifFileCache() *filecache.FileCache { return s.fileCache }
+
+// VerifSetFlushRate sets the measured flush rate used by the write rate limiter.
+func (s *Store) VerifSetFlushRate(rate float64) {
+	s.rateLk.Lock()
+	s.flushRate = rate
+	s.rateLk.Unlock()
+}
